@@ -118,11 +118,16 @@ func (sc *Scanner) skipComments(ch int) error {
 	if sc.Peek() == '[' {
 		ch = sc.Next()
 		if sc.Peek() == '[' || sc.Peek() == '=' {
-			var buf bytes.Buffer
-			if err := sc.scanMultilineString(sc.Next(), &buf); err != nil {
-				return sc.Error(buf.String(), "invalid multiline comment")
+			var count int
+			count, ch = sc.countSep(sc.Next())
+			if ch == '[' {
+				var buf bytes.Buffer
+				if err := sc.scanMultilineBody(count, &buf); err != nil {
+					return sc.Error(buf.String(), "invalid multiline comment")
+				}
+				return nil
 			}
-			return nil
+			// `--[==` without a second `[` is a short comment (Lua 5.1, llex.c skip_sep): go on to the end of the line
 		}
 	}
 	for {
@@ -255,12 +260,18 @@ func (sc *Scanner) countSep(ch int) (int, int) {
 }
 
 func (sc *Scanner) scanMultilineString(ch int, buf *bytes.Buffer) error {
-	var count1, count2 int
+	var count1 int
 	count1, ch = sc.countSep(ch)
 	if ch != '[' {
 		return sc.Error(string(rune(ch)), "invalid multiline string")
 	}
-	ch = sc.Next()
+	return sc.scanMultilineBody(count1, buf)
+}
+
+// scanMultilineBody reads the body of a long bracket of level count1; the opening bracket has been read.
+func (sc *Scanner) scanMultilineBody(count1 int, buf *bytes.Buffer) error {
+	var count2 int
+	ch := sc.Next()
 	if ch == '\n' || ch == '\r' {
 		ch = sc.Next()
 	}
